@@ -51,6 +51,7 @@ type opts struct {
 	sameBase        bool  // add x/common.thrift and y/common.thrift
 	viaLocalTypedef bool  // enum values written through a local typedef of an included (typedef'd) enum
 	unusedIncl      bool
+	valOnly         int // 1: an include referred to only through constant identifiers is main's FIRST include, 2: its last
 }
 
 // build constructs the program under the given options.
@@ -116,6 +117,19 @@ func build(o opts) *program {
 		incs = append(incs, &idl.Include{Path: "u.thrift", File: u})
 		files = append(files, u)
 	}
+	var vk *idl.Const
+	if o.valOnly > 0 {
+		v := &idl.File{Path: "v.thrift", Namespaces: []*idl.Namespace{{Lang: "go", Name: "p.v"}}}
+		vk = &idl.Const{Name: "VK", Type: i32, Value: idl.VI(11)}
+		v.Add(vk)
+		v.Add(&idl.Struct{Cat: "struct", Name: "VS", Fields: []*idl.Field{fld(1, "v", i32, nil)}})
+		if o.valOnly == 1 {
+			incs = append([]*idl.Include{{Path: "v.thrift", File: v}}, incs...)
+		} else {
+			incs = append(incs, &idl.Include{Path: "v.thrift", File: v})
+		}
+		files = append(files, v)
+	}
 	m.Includes = incs
 
 	l := &idl.Enum{Name: "L", Values: []*idl.EnumValue{{Name: "X"}, {Name: "Y", Value: 9, Explicit: true}}}
@@ -169,6 +183,10 @@ func build(o opts) *program {
 		{Name: "K7", Type: idl.ListOf(idl.EnumT(color)), Value: idl.VL(idl.VE(color, color.Values[0]), idl.VC(acol), idl.VI(3))},
 		{Name: "K8", Type: idl.StructT(bs), Value: idl.VM([2]*idl.Value{idl.VS("c"), idl.VE(color, color.Values[1])})},
 	}
+	if vk != nil {
+		consts = append(consts, &idl.Const{Name: "KV1", Type: i32, Value: idl.VC(vk)}, &idl.Const{Name: "KV2", Type: idl.MapOf(str, i32), Value: idl.VM([2]*idl.Value{idl.VS("a"), idl.VC(vk)})})
+		ms.Fields = append(ms.Fields, fld(30, "f30", i32, idl.VC(vk)))
+	}
 	svc := &idl.Service{Name: "S", Extends: aBase, Functions: []*idl.Function{{Name: "f", Ret: idl.TypedefT(mStruct), Args: []*idl.Field{fld(1, "a", idl.TypedefT(bHue), nil), fld(2, "b", idl.ListOf(idl.StructT(bs)), nil)}, Throws: []*idl.Field{fld(1, "e", idl.StructT(ax), nil)}}}}
 	svc2 := &idl.Service{Name: "S2", Extends: bSvc}
 	svc3 := &idl.Service{Name: "S3", Extends: svc}
@@ -206,7 +224,7 @@ func build(o opts) *program {
 			addRest(p)
 		}
 	}
-	return &program{name: fmt.Sprintf("perm=%v swap=%v layout=%d same=%v unused=%v via=%v", o.tdPerm, o.incSwap, o.layout, o.sameBase, o.unusedIncl, o.viaLocalTypedef), files: files, main: m}
+	return &program{name: fmt.Sprintf("perm=%v swap=%v layout=%d same=%v unused=%v via=%v valonly=%d", o.tdPerm, o.incSwap, o.layout, o.sameBase, o.unusedIncl, o.viaLocalTypedef, o.valOnly), files: files, main: m}
 }
 
 func perms(n int) [][]int {
@@ -598,6 +616,7 @@ func main() {
 	for _, p := range ps[:24] {
 		optsList = append(optsList, opts{tdPerm: p, viaLocalTypedef: true}, opts{tdPerm: p, viaLocalTypedef: true, incSwap: true, layout: 3})
 		optsList = append(optsList, opts{tdPerm: p, sameBase: true}, opts{tdPerm: p, unusedIncl: true, incSwap: true, layout: 2}, opts{tdPerm: p, sameBase: true, unusedIncl: true, layout: 1})
+		optsList = append(optsList, opts{tdPerm: p, valOnly: 1}, opts{tdPerm: p, valOnly: 2, layout: 2}, opts{tdPerm: p, valOnly: 1, unusedIncl: true, layout: 3})
 	}
 	var mu sync.Mutex
 	trees := map[string]string{} // variant (swap/same/unused) -> canonical tree
@@ -642,7 +661,7 @@ func main() {
 					// incSwap changes include indices but the tree text only records whether a
 					// Reference is present, so all permutations, layouts and include orders of
 					// one file set must agree
-					variant := fmt.Sprintf("same=%v unused=%v via=%v", o.sameBase, o.unusedIncl, o.viaLocalTypedef)
+					variant := fmt.Sprintf("same=%v unused=%v via=%v valonly=%v", o.sameBase, o.unusedIncl, o.viaLocalTypedef, o.valOnly > 0)
 					mu.Lock()
 					if prev, ok := trees[variant]; !ok {
 						trees[variant] = tree
